@@ -25,6 +25,6 @@ func main() {
 	if !run.Quick() {
 		depth = 3
 	}
-	sweep.Explore(run, sweep.Options{Prop: "C09", Bias: "barrier", NBase: run.N(120, 1500), Depth: depth, DeepPct: 12, Workers: 6, OnlyTxn: true})
+	sweep.Explore(run, sweep.Options{Prop: "C09", Bias: "barrier", NBase: run.N(120, 1500), Depth: depth, DeepPct: 12, Workers: 6, OnlyTxn: true, CleanStops: 6})
 	run.Exit()
 }
